@@ -1,12 +1,15 @@
 package queue
 
-// C06 thorough: a history of four operations on a fan-out queue with two groups, from an arbitrary
+// C06 thorough: a history of three operations (four: time-boxed) on a fan-out queue with two groups, from an arbitrary
 // persisted state satisfying the running invariant, compared after every operation with a model
 // of the positions (appended, queue acknowledged, per group consumed / acknowledged). The
 // operations: consume, acknowledge (arbitrary argument), set-consumed - each on either group -,
 // sync, append, close + reopen. The single-operation harness (verifC06Step) is an inductive step;
 // this one shows that the steps compose as the model says, including reopen in the middle.
-func verifC06History() {
+func verifC06History()  { verifC06HistoryN(3) }
+func verifC06History4() { verifC06HistoryN(4) }
+
+func verifC06HistoryN(steps int) {
 	dir := verifQueueDir()
 	appended := verifRange("appended", 0, 200000)
 	qack := verifRange("queueAcked", -1, 200000)
@@ -29,7 +32,7 @@ func verifC06History() {
 	for i := range gs {
 		gs[i], _ = fq.GetOrCreateConsumerGroup(names[i])
 	}
-	for step := 0; step < 4; step++ {
+	for step := 0; step < steps; step++ {
 		op := verifChoose("op", 9)
 		gi := op & 1
 		switch op {
